@@ -678,13 +678,11 @@ class CategoricalClassification:
             for feature in Xs_T:
                 unique_per_label = {}
 
+                label_start = 0
                 for i in range(n_labels):
-                    if i == 0:
-                        unique = np.unique(feature[:label_count[i]])
-                        unique_per_label[label_values[i]] = set(unique)
-                    else:
-                        unique = np.unique(feature[label_count[i - 1]:label_count[i - 1] + label_count[i] - 1])
-                        unique_per_label[label_values[i]] = set(unique)
+                    unique = np.unique(feature[label_start:label_start + label_count[i]])
+                    unique_per_label[label_values[i]] = set(unique)
+                    label_start += label_count[i]
 
                 ixs = np.random.choice(n, n_flip, replace=False)
 
